@@ -256,16 +256,39 @@ def reaches_avoiding(cfg, target, avoid) -> bool:
 
 
 def writes_not_preceded(cfg, f, g, writes):
-    """write nodes that are not preceded by the guard g on every path (or that interleave with it inside its loop);
-    paths on which the argument is None do not count (the guard is vacuous there)"""
-    dn, loop = decision_node(cfg, f, g)
-    vac = vacuous_branches(cfg, f)
+    """write nodes that can be reached without the guard g having been decided.
+
+    g is decided on a path when the path takes the non-raising branch of one of the tests in g's condition chain (the
+    conjunction is then false) or leaves g's per-element loop through its "exhausted" branch (every element was tested);
+    paths on which the argument is None do not count (the guard is vacuous there).  A write inside g's own loop interleaves
+    with the validation and counts as not preceded."""
+    gn = g.g.cfg_node if hasattr(g, 'g') else g.cfg_node
+    avoid = set(vacuous_branches(cfg, f))
+    chain = cfg.conditions(gn)
+    for test, pol in chain:
+        tn = cfg.node_containing(test)
+        if tn is None:
+            continue
+        for s_ in tn.succ:
+            if s_.kind == 'branch' and s_.test is test and s_.polarity != pol:
+                avoid.add(s_.id)
+    loops = cfg.enclosing_fors(gn)
+    loop_hdrs = []
+    for fo in loops:
+        hdr = cfg.node_of(fo)
+        if hdr is None:
+            continue
+        loop_hdrs.append(hdr)
+        for s_ in hdr.succ:
+            if s_.kind == 'branch' and s_.polarity is False:
+                avoid.add(s_.id)
+    avoid.add(gn.id)
     late = []
     for w in writes:
         wn = w[0]
-        if dn is None or (not cfg.dominates(dn, wn) and reaches_avoiding(cfg, wn, vac | {dn.id})):
+        if reaches_avoiding(cfg, wn, avoid):
             late.append(w)
-        elif loop is not None and cfg.can_reach(wn, dn):
+        elif any(cfg.can_reach(wn, h) for h in loop_hdrs):
             late.append(w)        # the write is inside the validation loop: element k is written before element k+1 is checked
     return late
 
